@@ -219,6 +219,63 @@ theorem tree_sound_semantic_core (A : List PolicyRule) (s : Sub)
         · rw [e]; exact hua
         · rw [e]; simp [urlMatches, nonResourceAll_eq]
 
+
+/-! ## the exact decision of the tree -/
+
+/-- one allow-list rule grants the granular request: every component is listed literally
+or as the wildcard (no names listed = the wildcard) -/
+def ruleGrants (o : PolicyRule) : Sub → Bool
+  | .res g rs n v =>
+      o.apiGroups.any (fun x => x == g || x == wildcard) &&
+      o.resources.any (fun x => x == rs || x == wildcard) &&
+      (if o.resourceNames.isEmpty then [wildcard] else o.resourceNames).any
+        (fun x => x == n.getD wildcard || x == wildcard) &&
+      o.verbs.any (fun x => x == v || x == wildcard)
+  | .url u v =>
+      o.nonResourceURLs.any (fun x => x == u || x == wildcard) &&
+      o.verbs.any (fun x => x == v || x == wildcard)
+
+/-- the tree grants exactly what some single allow-list rule grants component-wise -/
+theorem granted_eq (A : List PolicyRule) (s : Sub) (h2 : NoEmptyURL A) (h3 : s.InDomain) :
+    granted A s = A.any (ruleGrants · s) := by
+  rw [Bool.eq_iff_iff]
+  constructor
+  · intro hg
+    obtain ⟨o, ho, hc⟩ := granted_cases A s h2 h3 hg
+    rw [List.any_eq_true]
+    refine ⟨o, ho, ?_⟩
+    cases s with
+    | res g rs n v =>
+      obtain ⟨⟨g', hg', hgm⟩, ⟨r', hr', hrm⟩, ⟨n', hn', hnm⟩, ⟨v', hv', hvm⟩⟩ := hc
+      simp only [ruleGrants, Bool.and_eq_true, List.any_eq_true, Bool.or_eq_true, beq_iff_eq, wildcard_eq]
+      exact ⟨⟨⟨⟨g', hg', hgm⟩, ⟨r', hr', hrm⟩⟩, ⟨n', by simpa [wildcard_eq] using hn', by simpa [wildcard_eq] using hnm⟩⟩,
+        ⟨v', hv', hvm⟩⟩
+    | url u v =>
+      obtain ⟨⟨u', hu', hum⟩, ⟨v', hv', hvm⟩⟩ := hc
+      simp only [ruleGrants, Bool.and_eq_true, List.any_eq_true, Bool.or_eq_true, beq_iff_eq, wildcard_eq]
+      exact ⟨⟨u', hu', hum⟩, ⟨v', hv', hvm⟩⟩
+  · intro h
+    rw [List.any_eq_true] at h
+    obtain ⟨o, ho, hgr⟩ := h
+    unfold granted
+    rw [tree_allowed, List.any_eq_true]
+    cases s with
+    | res g rs n v =>
+      simp only [ruleGrants, Bool.and_eq_true, List.any_eq_true, Bool.or_eq_true, beq_iff_eq] at hgr
+      obtain ⟨⟨⟨⟨g', hg', hgm⟩, ⟨r', hr', hrm⟩⟩, ⟨n', hn', hnm⟩⟩, ⟨v', hv', hvm⟩⟩ := hgr
+      refine ⟨⟨g', r', n', "", v'⟩, (mem_expand A _).2 ⟨o, ho, (mem_expandOne o _).2 (Or.inr ⟨g', hg', r', hr', n', hn', v', hv', rfl⟩)⟩, ?_⟩
+      simp only [Sub.toRule, path_res, pm, Bool.and_true, Bool.and_eq_true, Bool.or_eq_true, beq_iff_eq]
+      exact ⟨Or.inl trivial, hgm, hrm, hnm, hvm⟩
+    | url u v =>
+      have hu : u ≠ "" := h3
+      simp only [ruleGrants, Bool.and_eq_true, List.any_eq_true, Bool.or_eq_true, beq_iff_eq] at hgr
+      obtain ⟨⟨u', hu', hum⟩, ⟨v', hv', hvm⟩⟩ := hgr
+      have hu0 : u' ≠ "" := fun e => h2 o ho (e ▸ hu')
+      refine ⟨⟨"", "", "", u', v'⟩, (mem_expand A _).2 ⟨o, ho, (mem_expandOne o _).2 (Or.inl ⟨u', hu', v', hv', rfl⟩)⟩, ?_⟩
+      simp only [Sub.toRule, path_url u' v' hu0, path_url u v hu, pm, Bool.and_true, Bool.and_eq_true,
+        Bool.or_eq_true, beq_iff_eq]
+      exact ⟨Or.inl trivial, hum, hvm⟩
+
 /-! ## from the rejected list to the granular statement -/
 
 theorem toRule_mem_expandOne (q : PolicyRule) (s : Sub) (hs : s ∈ breakdown q) :
